@@ -119,6 +119,45 @@ def body_factory(tier, seed):
                                   "(handler ran: %r, written: %r)" % (variant, "accepted" if ran else "mishandled", ran, w[:1]),
                                   {"kind": "redecorated", "version": version, "variant": variant, "frame": '[2,"rd","Reset",{"type":"NotAType","extra":1}]',
                                    "handler_ran": ran, "written": w[:1]})
+        # the public route map rebuilt after handlers were attached to the INSTANCE (what the library's own tests do:
+        # cp.route_map = create_route_map(cp)): the flags in force are those of the map the endpoint now has
+        from ocpp.routing import create_route_map as _crm
+        for version in ("1.6", "2.0.1"):
+            pkg = "v16" if version == "1.6" else "v201"
+            base_cls = getattr(_importlib.import_module("ocpp." + pkg), "ChargePoint")
+            cr = _importlib.import_module("ocpp.%s.call_result" % pkg)
+            for becomes_skipping in (True, False):
+                ran = []
+
+                class WithRoute(base_cls):
+                    @_on("Reset", skip_schema_validation=not becomes_skipping)
+                    def on_reset(self, **kw):
+                        ran.append("class")
+                        return cr.Reset(status="Accepted")
+
+                def inst_handler(**kw):
+                    ran.append("instance")
+                    return cr.Reset(status="Accepted")
+                inst_handler.__name__ = "on_reset"
+                rec = D.Recorder()
+
+                async def go_rebuilt():
+                    import logging
+                    cp = WithRoute("x", D.Conn(rec))
+                    cp.logger = logging.getLogger("ov-silent")
+                    cp.on_reset = _on("Reset", skip_schema_validation=becomes_skipping)(inst_handler)
+                    cp.route_map = _crm(cp)
+                    await cp.route_message('[2,"rb","Reset",{"type":"NotAType","extra":1}]')
+                _asyncio.run(go_rebuilt())
+                rep.count("rebuilt-route-map:%s:%s" % (version, becomes_skipping))
+                w = O.sends(rec.seq)
+                ok = (ran == ["instance"] and len(w) == 1 and w[0][0] == 3) if becomes_skipping else (not ran and len(w) == 1 and w[0][0] == 4)
+                if not ok:
+                    rep.violation("C16:rebuilt-route-map:%s:%s" % (version, "now-skipping" if becomes_skipping else "now-validating"),
+                                  "after cp.on_reset was replaced on the instance by a handler registered with skip_schema_validation=%r and "
+                                  "cp.route_map = create_route_map(cp), an invalid Reset CALL: handlers run %r, written %r" % (
+                                      becomes_skipping, ran, [x[:3] for x in w]),
+                                  {"kind": "rebuilt-route-map", "version": version, "becomes_skipping": becomes_skipping, "ran": ran, "written": w})
         # two endpoints of different classes in one process handle CALLs with the SAME unique id at the same time: the one
         # whose route skips validation is still inside its (slow, asynchronous) handler when the other one, whose route
         # validates, gets its invalid handler result -- 'every other endpoint in the process keeps full validation'
